@@ -258,6 +258,65 @@ func concretise(g *hv.EvalGen, v cty.Value, changed *bool) cty.Value {
 	return v
 }
 
+func exclusivise(r *hv.Rng, v cty.Value) cty.Value {
+	if v.IsMarked() {
+		u, m := v.Unmark()
+		return exclusivise(r, u).WithMarks(m)
+	}
+	if !v.IsKnown() && v.Type() == cty.Number {
+		rg := v.Range()
+		lo, _ := rg.NumberLowerBound()
+		hi, _ := rg.NumberUpperBound()
+		if !rg.DefinitelyNotNull() || !lo.IsKnown() || !hi.IsKnown() || lo.RawEquals(cty.NegativeInfinity) || hi.RawEquals(cty.PositiveInfinity) || !r.Chance(0.5) {
+			return v
+		}
+		// widen by one on the side made exclusive so that the range stays non-empty
+		b := cty.UnknownVal(cty.Number).Refine().NotNull()
+		switch r.Intn(3) {
+		case 0:
+			b = b.NumberRangeLowerBound(lo.Subtract(cty.NumberIntVal(1)), false).NumberRangeUpperBound(hi, true)
+		case 1:
+			b = b.NumberRangeLowerBound(lo, true).NumberRangeUpperBound(hi.Add(cty.NumberIntVal(1)), false)
+		default:
+			b = b.NumberRangeLowerBound(lo.Subtract(cty.NumberIntVal(1)), false).NumberRangeUpperBound(hi.Add(cty.NumberIntVal(1)), false)
+		}
+		return b.NewValue()
+	}
+	if !v.IsKnown() || v.IsNull() {
+		return v
+	}
+	ty := v.Type()
+	switch {
+	case ty.IsListType() || ty.IsTupleType():
+		if v.LengthInt() == 0 {
+			return v
+		}
+		var vs []cty.Value
+		for it := v.ElementIterator(); it.Next(); {
+			_, e := it.Element()
+			vs = append(vs, exclusivise(r, e))
+		}
+		if ty.IsListType() {
+			return cty.ListVal(vs)
+		}
+		return cty.TupleVal(vs)
+	case ty.IsMapType() || ty.IsObjectType():
+		if v.LengthInt() == 0 {
+			return v
+		}
+		m := map[string]cty.Value{}
+		for it := v.ElementIterator(); it.Next(); {
+			k, e := it.Element()
+			m[k.AsString()] = exclusivise(r, e)
+		}
+		if ty.IsMapType() {
+			return cty.MapVal(m)
+		}
+		return cty.ObjectVal(m)
+	}
+	return v
+}
+
 func cloneCtx(ctx *hcl.EvalContext, f func(v cty.Value) cty.Value) *hcl.EvalContext {
 	if ctx == nil {
 		return nil
@@ -442,6 +501,10 @@ func run(cfg *hv.RunCfg) error {
 		g := hv.NewEvalGen(r)
 		g.Marks, g.Unknowns, g.Nulls = 0.04, 0.25, 0.03
 		ctxA := g.GenScope()
+		// half of the refined unknown numbers of a generated scope get EXCLUSIVE bounds (the shared
+		// generator only produces inclusive ones): the inclusiveness flags take part in the merge of
+		// the two arms of a conditional with an unknown condition
+		ctxA = cloneCtx(ctxA, func(v cty.Value) cty.Value { return exclusivise(r, v) })
 		inPrefix := ""
 		if text == "\x00tgt" {
 			ctxA = tgtScope()
